@@ -24,7 +24,7 @@ na=json.load(open(f'{V}/tools/not_applicable.json'))
 nal=[{"property_id":i,"reason":na.get(i,"not yet built in this session (engine work in progress); no claim is made")} for i in ids if i not in claimed]
 m={"version":1,
  "setup_cmd":"cd /verif/gosym && GOFLAGS=-mod=mod GOPROXY=off GOTOOLCHAIN=local go1.26.8 build -o ../bin/verif ./cmd/verif && ../bin/verif selftest",
- "hooks":{"guard":"verif","enable":"none needed: harnesses are injected with go/packages overlays (symbolic run) and go test -overlay (native replay); /repo is never edited by a check","baseline_off_cmd":"cd /repo && go test -vet=off -count=1 -timeout 25m ./...","source_commits":[],"add_only":True},
+ "hooks":{"guard":"verif","enable":"none needed: harnesses are injected with go/packages overlays (symbolic run) and go test -overlay (native replay); /repo is never edited by a check","baseline_off_cmd":"/verif/tools/baseline.sh /repo","source_commits":[],"add_only":True},
  "engines":[{"name":"gosym","path":"/verif/gosym","serves_properties":sorted(claimed),"kind_free_text":"symbolic executor for Go: fork of x/tools go/ssa/interp over bit-vector terms, path exploration by re-execution with decision vectors, one z3 -in per worker, native replay of every counterexample"}],
  "checks":checks,
  "not_applicable":nal,
